@@ -355,3 +355,4 @@ package channel
 //@   ensures #nil-on-error result.1 != nil ==> result.0 == nil
 //@   ensures #every-option-applied-in-order result.1 == nil ==> optlog == old(optlog) ++ applied(options, box("*channel.Channel", result.0), len(options))
 //@   ensures #defaults result.1 == nil && len(options) == 0 ==> result.0.TimeoutOps == 60 * 1000000000 && result.0.ReadDelay == 250 * 1000 && result.0.PromptSearchDepth == 1000 && result.0.ReturnChar == "\n" && RI(result.0.Q) && result.0.t == t
+
